@@ -328,6 +328,10 @@ func drawType(t *rapid.T) TypeCase {
 	} else {
 		text = in.Text(false)
 	}
+	if gen.OneIn(t, 6, "poison") {
+		// runs of malformed UTF-8, lone-surrogate escapes and the like inside a string literal
+		return TypeCase{Type: d, Input: gen.PoisonStrings(t, []byte(text), "poi")}
+	}
 	return TypeCase{Type: d, Input: []byte(text)}
 }
 
